@@ -50,6 +50,7 @@ class FnSpec:
         self.sections = {}      # 'requires' / 'ensures' / 'body-start' / ('loop',k,'pre'|'spec')
         self.anchors = []       # (where, fragment, text, lineno)
         self.optional = set()   # section keys that may stay unused
+        self.params = None      # parameter names the overlay was written against (a renamed parameter is mapped)
         self.used = False
         self.lineno = 0
 
@@ -113,6 +114,8 @@ def load_overlay(path, variants=frozenset()):
                     cur.ret = p[4:]
                 elif p.startswith('ctags='):
                     cur.ctags = [x for x in p[6:].split(',') if x]
+                elif p.startswith('params='):
+                    cur.params = [x for x in p[7:].split(',') if x]
                 else:
                     raise Unsupported('%s:%d: unknown option %s' % (path, no, p))
             specs.append(cur)
@@ -136,7 +139,7 @@ def load_overlay(path, variants=frozenset()):
                 sec = (m.group(1), m.group(2), no)
             elif m2:
                 sec = (m2.group(1), int(m2.group(2)), m2.group(3))
-            elif h in ('requires', 'ensures', 'decreases', 'body-start', 'body-end'):
+            elif h in ('requires', 'ensures', 'decreases', 'body-start', 'body-end', 'tail-before'):
                 sec = h
             else:
                 raise Unsupported('%s:%d: unknown section %r' % (path, no, h))
@@ -845,6 +848,77 @@ def _subst_placeholders(text, lets, fname):
     return re.sub(r'\$for<(\d+)>#(\d+)', repf, text)
 
 
+def _param_names(item):
+    """names of the non-self parameters of a fn item, in order (None where the parameter is a pattern)"""
+    toks = item.toks
+    sig = toks[item.lead_end:item.body_open if item.body_open is not None else item.header_end]
+    # the parameter list is the first (...) after the fn name (generics <...> contain no parentheses here)
+    i = 0
+    while i < len(sig) and not (sig[i].kind == 'punct' and sig[i].text == '('):
+        i += 1
+    if i >= len(sig):
+        return []
+    e = match_close(sig, i)
+    parts, cur, x = [], [], i + 1
+    while x < e:
+        y = sig[x]
+        if y.kind == 'punct' and y.text in rsscan.OPEN:
+            z = match_close(sig, x)
+            cur += sig[x:z + 1]
+            x = z + 1
+            continue
+        if y.kind == 'punct' and y.text == '<':
+            cur.append(y)
+        elif y.kind == 'punct' and y.text == ',' and sum(1 for c in cur if c.text == '<') == sum(1 for c in cur if c.text == '>'):
+            parts.append(cur)
+            cur = []
+        else:
+            cur.append(y)
+        x += 1
+    if [c for c in cur if c.sig()]:
+        parts.append(cur)
+    names = []
+    for p in parts:
+        sg = [c for c in p if c.sig()]
+        head = []
+        for c in sg:
+            if c.kind == 'punct' and c.text == ':':
+                break
+            head.append(c)
+        hd = [c.text for c in head if c.text not in ('mut', '&') and c.kind != 'life']
+        if hd and hd[-1] == 'self':
+            continue
+        names.append(hd[0] if len(hd) == 1 and re.fullmatch(r'[A-Za-z_]\w*', hd[0]) else None)
+    return names
+
+
+def _rename_idents(text, mapping):
+    if not mapping:
+        return text
+    return render([Tok(t.kind, mapping.get(t.text, t.text) if t.kind == 'ident' else t.text) for t in tokenize(text)])
+
+
+def _map_params(spec, item):
+    """the overlay names the parameters it was written against (params=..); if they have been renamed, rename them in the
+    overlay text as well"""
+    if spec is None or not spec.params:
+        return spec
+    now = _param_names(item)
+    if len(now) != len(spec.params) or any(n is None for n in now):
+        raise Unsupported('%s: parameter list changed (overlay written for %s, found %s)' % (item.name, spec.params, now))
+    mapping = dict((o, n) for o, n in zip(spec.params, now) if o != n)
+    if not mapping:
+        return spec
+    if set(mapping.values()) & set(spec.params) - set(mapping.keys()):
+        raise Unsupported('%s: parameter renaming %s collides' % (item.name, mapping))
+    c = FnSpec(spec.file, spec.impl_re, spec.name)
+    c.tags, c.ctags, c.ret, c.lineno, c.optional, c.params = spec.tags, spec.ctags, spec.ret, spec.lineno, spec.optional, now
+    c.sections = dict((k, _rename_idents(v, mapping)) for k, v in spec.sections.items())
+    c.anchors = [(w, _rename_idents(f, mapping), _rename_idents(t, mapping), no) for (w, f, t, no) in spec.anchors]
+    c.foreign = getattr(spec, 'foreign', False)
+    return c
+
+
 def _resolve_spec(spec, body, fname):
     """a copy of the overlay block with the $let placeholders resolved against this function body"""
     if spec is None:
@@ -868,6 +942,7 @@ def extract_fn(item, file, impl_key, spec, twin_false=False):
     """item: rsscan.Item of kind fn. Returns FnOut."""
     dropped = []
     orig_spec = spec
+    spec = _map_params(spec, item)
     if item.body_open is not None:
         spec = _resolve_spec(spec, item.toks[item.body_open + 1:item.body_close], item.name)
     _strip_lead(item, dropped)
@@ -931,6 +1006,27 @@ def extract_fn(item, file, impl_key, spec, twin_false=False):
     if spec:
         for (where, frag, text, _no) in spec.anchors:
             b = _apply_anchor(b, where, frag, text, item.name)
+    if spec and 'tail-before' in spec.sections:
+        # in front of the tail expression (the value the function returns): after the last `;` / statement-closing `}` at
+        # depth 0 that is followed by something; at the very end if the body has no tail expression
+        pos, depth, x = 0, 0, 0
+        while x < len(b):
+            t = b[x]
+            if t.kind == 'punct' and t.text in rsscan.OPEN:
+                y = match_close(b, x)
+                if t.text == '{':
+                    nx = next_sig(b, y + 1)
+                    if nx < len(b) and not (b[nx].text in ('else', '.', '?', 'as') or (b[nx].kind == 'punct' and b[nx].text not in ('(', '[', '{', '&', '*', '!', '-', '|'))):
+                        pos = y + 1
+                    elif nx >= len(b):
+                        pos = len(b)
+                x = y + 1
+                continue
+            if t.kind == 'punct' and t.text == ';':
+                pos = x + 1
+            x += 1
+        b = b[:pos] + splice_toks('\n' + spec.sections['tail-before']) + b[pos:]
+        used.add('tail-before')
     out += b
     if spec and 'body-end' in spec.sections:
         out += splice_toks('\n' + spec.sections['body-end'])
@@ -989,6 +1085,9 @@ def extract_contract(item, spec):
     """Signature (copied from the source, T7 applied) + the overlay's requires/ensures, body `unimplemented!()`,
     marked external_body: the callee is used by its contract only; its body is verified in the owning unit."""
     toks = item.toks
+    orig = spec
+    spec = _map_params(spec, item)
+    orig.used = True
     sig = toks[item.lead_end:item.body_open]
     out = lit('#[verifier::external_body] // contract-only: body verified in the unit that owns this contract\n', 'T6')
     arrow, depth = None, 0
